@@ -9,5 +9,6 @@ for c in $(git rev-list --reverse 585bfc1..FETCH_HEAD); do
   case "$subj" in
     tmp*) echo "SKIP $c $subj"; continue;;
   esac
+  if git log --format=%s 585bfc1..HEAD | grep -qxF "$subj"; then continue; fi
   if git cherry-pick $c >/dev/null 2>&1; then echo "OK   $(git rev-parse --short HEAD) $subj"; else echo "CONFLICT $c $subj"; git status --short | head; exit 1; fi
 done
